@@ -25,7 +25,7 @@ SPEC = {
              "or the program contains both a store and a load of the variable inside different control constructs."),
     "assumptions": ["vlib/defassign.py definite-assignment analysis (source-level control-flow paths)", "vlib/refeval.py for the run-time echo"],
     "min_evaluations": {"quick": 8000, "thorough": 80000},
-    "must_reach": ["must_reject_rejected", "clean_accepted", "in_sub", "in_main", "runtime_echo_runs", "mutated_random", "diamonds"],
+    "must_reach": ["must_reject_rejected", "clean_accepted", "in_sub", "in_main", "runtime_echo_runs", "mutated_random", "diamonds", "nested_loops"],
     "shard_timeout": {"quick": 2400, "thorough": 14400},
 }
 
@@ -257,6 +257,14 @@ def run_shard(shard):
         where = "sub" if (j // N) % 2 else "main"
         judge(acc, diamond_recipe(copy.deepcopy(body), where), [4, 6, 9][(j // N) % 3], "app", ss=bool((j // N) % 2), origin="diamond_" + ctxkind, run_echo=False)
         acc.counters["diamonds"] += 1
+    # ---- nested loops with jumps
+    fam = nested_loop_family()
+    for j, (tag, body) in enumerate(fam):
+        if j % N != S:
+            continue
+        where = "sub" if (j // 7) % 2 else "main"
+        judge(acc, nested_loop_recipe(copy.deepcopy(body), where), [4, 6, 8, 10][(j // 5) % 4], "app", ss=bool((j // 11) % 2), origin="nested_loop_" + tag, run_echo=False)
+        acc.counters["nested_loops"] += 1
     # ---- random recipes with an initialiser deleted / demoted
     for i in range(shard["random"]):
         vgen = rng.choice([2, 4, 5, 6, 8, 9, 10])
@@ -307,6 +315,55 @@ def diamond_family():
                         out.append(("for", [["for", ["store", "k", ["int", 0]], ["bin", "<", ["load", "k"], ["int", 2]], ["store", "k", ["bin", "+", ["load", "k"], ["int", 1]]],
                                             ["seq", [join, ["if", C(2), ["break"], None], load]]]]))
     return out
+
+
+def nested_loop_family():
+    """Loops inside loops, with Break/Continue on some path of the inner body and the variable's store / load in every position a
+    loop has (before the loops, body before and after the jump, For step, loop condition, after the inner loop, after both)."""
+    C = lambda i: ["bin", "==", ["bin", "%", ["btoi", ["txna", "ApplicationArgs", 0]], ["int", 5]], ["int", i]]  # noqa: E731
+    S, L = ["store", "a", ["int", 1]], ["pop", ["load", "a"]]
+
+    def loop(kind, ctr, body, step_extra=None, cond_extra=None):
+        cond = ["bin", "<", ["load", ctr], ["int", 2]]
+        if cond_extra is not None:
+            cond = ["bin", "&&", cond, cond_extra]
+        inc = ["store", ctr, ["bin", "+", ["load", ctr], ["int", 1]]]
+        if kind == "for":
+            return ["for", ["store", ctr, ["int", 0]], cond, ["seq", [inc, step_extra]] if step_extra else inc, body]
+        return ["seq", [["store", ctr, ["int", 0]], ["while", cond, ["seq", [inc, body] + ([step_extra] if step_extra else [])]]]]
+    out = []
+    loadcond = ["bin", "<", ["load", "a"], ["int", 100]]
+    for outer in ("for", "while"):
+        for inner in ("for", "while"):
+            for jump in ("continue", "break", None):
+                for store_at in ("before_jump", "after_jump", "pre_loops", "outer_body", None):
+                    for load_at in ("inner_step", "inner_cond", "after_inner", "after_outer", "inner_body_end", "outer_step"):
+                        ib = []
+                        if store_at == "before_jump":
+                            ib.append(S)
+                        if jump:
+                            ib.append(["if", C(1), [jump], None])
+                        if store_at == "after_jump":
+                            ib.append(S)
+                        if load_at == "inner_body_end":
+                            ib.append(L)
+                        if not ib:
+                            ib.append(["nop"])
+                        il = loop(inner, "k1", ["seq", ib], step_extra=L if load_at == "inner_step" else None,
+                                  cond_extra=loadcond if load_at == "inner_cond" else None)
+                        ob = ([S] if store_at == "outer_body" else []) + [il] + ([L] if load_at == "after_inner" else [])
+                        ol = loop(outer, "k0", ["seq", ob], step_extra=L if load_at == "outer_step" else None)
+                        body = ([S] if store_at == "pre_loops" else []) + [ol] + ([L] if load_at == "after_outer" else [])
+                        out.append(("%s_%s_%s_%s_%s" % (outer, inner, jump, store_at, load_at), body))
+    return out
+
+
+def nested_loop_recipe(body, where):
+    vars_ = [{"id": v, "t": "u", "kind": "sv", "slot": None} for v in ("a", "k0", "k1")]
+    if where == "main":
+        return {"mode": "app", "vars": vars_, "subs": [], "main": body + [["pop", ["int", 5]]], "final": ["int", 1]}
+    sub = {"name": "s", "params": [{"k": "u"}], "ret": "u", "rec": False, "locals": vars_, "body": body, "retexpr": ["param", 0]}
+    return {"mode": "app", "vars": [], "subs": [sub], "main": [["pop", ["call", 0, [["int", 3]]]]], "final": ["int", 1]}
 
 
 def diamond_recipe(body, where):
